@@ -58,6 +58,36 @@ CHECKS = [
         "after every episode, nor that its 'Coding error' self-checks cannot trip (reachability over interleavings).",
         "note": BASE_NOTE,
     },
+    {
+        "id": "C06",
+        "technique": "static analysis: structural rules over pkt_header/_pkt_idx (discriminator completeness), table agreement of the verb maps, guard dominance over the FSM's packet handlers",
+        "text": "Necessary conditions: every header joins code + verb + device id and appends the payload context whenever it is a string; "
+        "the RQ->RP / W->I reply map agrees between frame.pkt_header and the dispatcher; every FSM transition on a received packet is "
+        "dominated by whole-header ==/!= tests against the sent command (no prefix/substring matching) with the single enumerated 0418 "
+        "null-entry exception, and the gateway-id placeholder is substituted on both sides. Does not decide that real replies carry the "
+        "same context bytes, nor near-miss rejection over all values.",
+        "note": BASE_NOTE,
+    },
+    {
+        "id": "C07",
+        "technique": "static analysis: bounded-await rule over the resolved send path, exception-effect closure, provenance/dominance and field-group coherence rules",
+        "text": "Necessary conditions: every await on the caller's path of PortProtocol.send_cmd is a send-path coroutine or "
+        "wait_for(timeout=min(qos.timeout, SEND_TIMEOUT_LIMIT)) with the limit folding to 20.0; only ProtocolError can leave send_cmd "
+        "(every class set on the future is converted); a result handed to the caller is a header-matched received packet; the future is "
+        "only (re)bound together with its command and QoS; the QoS debug flags are off. Does not decide completion time under arbitrary "
+        "schedules beyond the cap being in place; ReadProtocol (raises NotImplementedError by design) is outside the quantifier.",
+        "note": BASE_NOTE,
+    },
+    {
+        "id": "C08",
+        "technique": "static analysis: who-may-call + guard dominance, reaching definitions, interval analysis of the back-off exponent, queue-key typing",
+        "text": "Necessary conditions: retransmission only through one function, called from the dequeue and from effect_state under timed_out; "
+        "timed_out requested at one site on the true edge of tx_count < tx_limit; tx_limit = min(qos.max_retries, min(arg, 3)) + 1; the "
+        "back-off exponent provably stays in 0..3 and both waits are timeout * 2**exponent; one dequeue site, reached only with no future "
+        "pending, skipping resolved entries; queue entries order by priority then a unique counter before any unorderable element. "
+        "Does not decide 'exactly 1+min(r,3) transmissions', FIFO or doubling as observed in time.",
+        "note": BASE_NOTE,
+    },
 ]
 
 NOT_APPLICABLE = [
